@@ -677,6 +677,10 @@ func (f *FuncVC) writableMod(st *State, m modLoc) string {
 	if alts[0] == "true" {
 		return "true"
 	}
+	if !strings.HasPrefix(m.key, "E.") && !strings.HasPrefix(m.key, "E:") {
+		// a field of the nil object cannot be written (the store would panic): the item is vacuous for this call
+		alts = append(alts, "(= "+m.ref+" 0)")
+	}
 	for _, mine := range f.modSet {
 		if mine.key == m.key || mine.key == "*" {
 			alts = append(alts, eq(m.ref, mine.ref))
